@@ -15,7 +15,7 @@ U.flags = ['--no-trait-conflicts']
 U.desugar_for = True   # R4; the Vec iterator's vstd spec (IteratorSpec::remaining) gives termination of the inner loop
 U.kind_tags = {}
 F = 'file_system.rs'
-U.prepend(F, 'broadcast use {ax_includeid_key_model, axiom_random_state_builds_valid_hashers};')
+U.prepend(F, 'broadcast use {ax_includeid_key_model, axiom_random_state_builds_valid_hashers, ax_asref_str};')
 # data types and the FileSystem trait come from the linked ide crate
 for kind, name in [('struct', 'FileId'), ('struct', 'FilePosition'), ('impl', 'FilePosition'), ('struct', 'FileRange'), ('impl', 'FileRange'), ('struct', 'FilePath'),
                    ('impl', 'FilePath'), ('impl', r'<FilePath as From<&Path>>'), ('struct', 'FileSet'), ('impl', 'FileSet'), ('struct', 'SourceRoot'), ('impl', 'SourceRoot'),
@@ -24,11 +24,20 @@ for kind, name in [('struct', 'FileId'), ('struct', 'FilePosition'), ('impl', 'F
 U.drop_item(F, 'use', r'use crate::db::SourceDatabase;', 'R9', 'imported from the prelude')
 U.fn(F, 'list_includes', attrs=['external_body'],
      ensures=[C('forall|i: int, j: int| 0 <= i < j < ret@.len() ==> (#[trigger] ret@[i]).0 != (#[trigger] ret@[j]).0', name='ASSUMED: distinct include statements have distinct ids (syntax node pointers)')])
-U.fn(F, 'resolve_include_file', attrs=['external_body'],
+U.fn(F, 'resolve_include_file',
      ensures=['incmap(final(db)) == incmap(old(db))', 'fs_universe(final(fs)) == fs_universe(old(fs))',
               'ret is Some ==> fs_universe(final(fs)).contains(ret.unwrap())',
-              C('ret == resolve_spec(old(fs), include_path, include_dir_list@)', name='ASSUMED: resolution is a function of the file system, the path and the directories'),
-              C('forall|p: EcoString, d: Seq<FilePath>| #[trigger] resolve_spec(final(fs), p, d) == resolve_spec(old(fs), p, d)', name='ASSUMED: handing out a file id does not change what resolves')])
+              C('ret == resolve_spec(old(fs), include_path, include_dir_list@)', name='an include path resolves to the file of the FIRST directory of the list in which it is readable'),
+              C('forall|p: EcoString, d: Seq<FilePath>| #[trigger] resolve_spec(final(fs), p, d) == resolve_spec(old(fs), p, d)', name='resolving one include does not change what the others resolve to')],
+     loops={0: dict(after_iter_init='let ghost dirs = __it0.remaining(); let ghost mut n: int = 0;',
+                    invariant=['0 <= n <= dirs.len()', '__it0.remaining() =~= dirs.skip(n)', '__it0.obeys_prophetic_iter_laws()', '__it0.decrease() is Some',
+                               'dirs.len() == include_dir_list@.len()', 'forall|j: int| 0 <= j < dirs.len() ==> *(#[trigger] dirs[j]) == include_dir_list@[j]',
+                               '*fs == *old(fs)', 'incmap(db) == incmap(old(db))',
+                               C('resolve_from(fs, include_path, include_dir_list@, 0) == resolve_from(fs, include_path, include_dir_list@, n)', name='the path is not readable in any directory tried so far')],
+                    ensures=['n == dirs.len()'],
+                    body_prologue='proof { assert(dirs.skip(n)[0] == dirs[n]); n = n + 1; }',
+                    decreases='__it0.decrease().unwrap()')},
+     body_proofs=[(r'return Some\(file_id\);', 'proof { let f0 = old(fs); assert forall|p: EcoString, d: Seq<FilePath>| #[trigger] resolve_spec(fs, p, d) == resolve_spec(f0, p, d) by { lemma_resolve_frame(fs, f0, p, d, 0); } }')])
 U.fn(F, 'collect_sources',
      requires=[C('fs_universe(old(fs)).finite()', name='ASSUMED: the file system can hand out only finitely many file ids'),
                'fs_universe(old(fs)).contains(root_file)'],
